@@ -219,7 +219,7 @@ REG['C13'] = {
     'L': [
         dict(id='c13_solar', check='c13_solar', range=(1, 9999), chunks=64, exhaustive=True, domain='every civil year/month', clause='day-of-year and year length agree with the month lists'),
         dict(id='L-NEW', check='l_new', range=(0, 9999), chunks=32, exhaustive=True, domain='every lunation of lunar years 0..9999', clause='a lunar month has 29 or 30 days and a lunar year 12 or 13 months (the lengths the lists below are compared with)'),
-        dict(id='c13_lunar', check='c13_lunar', range=(0, 9998), chunks=64, domain='every lunar month (days), first/mid/last day of each month (hours), every sexagenary month of every 7th year', clause='lists == their parts'),
+        dict(id='c13_lunar', check='c13_lunar', range=(0, 9998), chunks=64, domain='every lunar month (days), first / last / one seed-rotated day of each month (hours), every sexagenary month of every year', clause='lists == their parts'),
     ],
 }
 
@@ -353,7 +353,7 @@ REG['C17'] = {
     'explanation': 'exhaustive execution of the recurrence contracts over their finite domains',
     'functions': ['SixtyCycleDay::get_duty / get_twelve_star / get_twenty_eight_star / get_nine_star', 'LunarDay::get_six_star / get_phase / get_minor_ren / get_nine_star', 'LunarYear::get_nine_star', 'LunarMonth::get_nine_star', 'SixtyCycleMonth::get_nine_star', 'SixtyCycleHour::get_twelve_star / get_nine_star', 'LunarHour::get_twelve_star / get_nine_star'],
     'L': [
-        dict(id='c17_day_series', check='c17_day_series', range=(2, 9998), chunks=64, exhaustive=True, domain='every civil date 0002..9998; 12 double-hours on the 1st and 15th of each month', clause='daily and hourly recurrences'),
+        dict(id='c17_day_series', check='c17_day_series', range=(2, 9998), chunks=64, exhaustive=True, domain='every civil date 0002..9998; all 24 hours of two (seed-rotated) days of each month', clause='daily and hourly recurrences'),
         dict(id='c17_year_month_stars', check='c17_year_month_stars', range=(-1, 9999), chunks=16, exhaustive=True, domain='every year -1..9999 and every (year, month)', clause='year / month flying stars'),
     ],
 }
